@@ -14,6 +14,11 @@ dtypes are covered by the rounding theorems: every floating dtype is a `Rounding
 -/
 import PybropsModel.Lemmas.GenotypeRounding
 import PybropsModel.Lemmas.Binary64
+import PybropsModel.Lemmas.GenotypeCast
+import PybropsModel.Lemmas.GenotypeCache
+import PybropsModel.Lemmas.GenotypeSpec
+import PybropsModel.Lemmas.BinaryFloat
+import PybropsModel.Lemmas.GenotypeLoops
 set_option autoImplicit false
 set_option linter.unusedSectionVars false
 set_option linter.unusedVariables false
@@ -180,6 +185,13 @@ theorem codings_eq_textbook (m : UMat) (g : Int) (j : Nat) :
     unfold fmtM1m1At
     rw [if_neg]
     simpa using this
+
+/-- **The `{-1,m,1}` loop as written.**  `out = mat - 1.0; for i in range(nvrnt): mean = out[:,i].mean();
+    out[out[:,i] == 0, i] = mean` — the literal column-by-column loop on the float matrix (each pass reads the column
+    as the earlier passes left it) — returns the closed form of the model for every valid matrix: heterozygotes get the
+    mean of the ORIGINAL `{-1,0,1}` column, because a pass only ever rewrites its own column. -/
+theorem m_coding_loop_eq_closed_form {ploidy nv : Nat} {m : UMat} (hv : ValidU ploidy nv m) :
+    m1Loop (α := α) nv m = fmtM1m1 (α := α) nv m := m1Loop_eq_closed hv
 
 end unphased
 
@@ -504,7 +516,191 @@ theorem gtcount_nphase_form_counterexample :
     ((List.range (0 + 1)).map (fun i => gtcountAt m i 0)).sum ≠ m.length
     ∧ ((List.range (2 + 1)).map (fun i => gtcountAt m i 0)).sum = m.length := by decide
 
+/-- **Per-taxon frequency and minor-allele frequency in floating point** (binary64, the values the harness compares
+    bit for bit): `tafreq = rnd (g/ploidy)` is exactly 1 / 0 precisely when the taxon carries `ploidy` / no copies, and
+    `maf` — `out = rnd (c/m)`, then `rnd (1 - out)` where `out > 0.5` — is exactly 0 precisely when the locus is fixed
+    for either allele. -/
+theorem tafreq_maf_ieee_exact_partial (g ploidy c m : ℕ) (hp : 0 < ploidy) (hg : g ≤ ploidy) (hpb : ploidy ≤ 2 ^ 53)
+    (hm : 0 < m) (hcm : c ≤ m) (hbig : m ≤ 2 ^ 53) :
+    (Binary64.roundBinary64 ((g : ℚ) / ploidy) = 1 ↔ g = ploidy)
+    ∧ (Binary64.roundBinary64 ((g : ℚ) / ploidy) = 0 ↔ g = 0)
+    ∧ ((if (1 : ℚ) / 2 < Binary64.roundBinary64 ((c : ℚ) / m)
+          then Binary64.roundBinary64 (1 - Binary64.roundBinary64 ((c : ℚ) / m))
+          else Binary64.roundBinary64 ((c : ℚ) / m)) = 0 ↔ (c = 0 ∨ c = m)) :=
+  ⟨(div_form_exact_ieee g ploidy hp hg hpb).1, (div_form_exact_ieee g ploidy hp hg hpb).2.1,
+   maf_rounded_zero_iff Binary64.roundBinary64_contract c m hm hcm (eps64_bound m hbig)⟩
+
+/-! ### `afreq("float32")`, `afreq("float16")` with the concrete IEEE roundings (`BinaryFloat.roundBin`) -/
+
+/-- **round-to-nearest-even with any number `t` of stored significand bits meets the rounding contract** (half-ulp
+    `2^-(t+1)`), `roundBin 52` is the binary64 model, and binary64 represents the binary32 / binary16 half-ulps and
+    their complements — so the value numpy returns for a frequency in a narrower float, the cast of the binary64
+    quotient, is covered by `afreq_cast_exact_partial` with two concrete roundings (below). -/
+theorem ieee_formats_satisfy_contract (t : Nat) :
+    RoundingContract (BinaryFloat.roundBin t) (BinaryFloat.epsT t)
+    ∧ (∀ x, BinaryFloat.roundBin 52 x = Binary64.roundBinary64 x)
+    ∧ BinaryFloat.epsT 52 = eps64 ∧ BinaryFloat.epsT 23 = eps32 ∧ BinaryFloat.epsT 10 = eps16 :=
+  ⟨BinaryFloat.roundBin_contract t, BinaryFloat.roundBin_52, BinaryFloat.epsT_52, BinaryFloat.epsT_23,
+   BinaryFloat.epsT_10⟩
+
+/-- the frequency returned for `dtype = float32` (`afreqNarrowAt 23`: binary64 quotient, then cast), compared bit for
+    bit with numpy by the harness: in [0,1], exactly 1 / 0 precisely when every copy carries allele 1 / 0, for every
+    population of at most 2²⁴ chromosome copies -/
+theorem afreq_float32_exact_partial {ploidy nv : Nat} {m : UMat} (hv : ValidU ploidy nv m)
+    (hbig : ploidy * m.length ≤ 2 ^ 24) (j : Nat) :
+    (0 ≤ afreqNarrowAt 23 ploidy m j ∧ afreqNarrowAt 23 ploidy m j ≤ 1)
+    ∧ (afreqNarrowAt 23 ploidy m j = 1 ↔ ∀ r ∈ m, entry r j = (ploidy : Int))
+    ∧ (afreqNarrowAt 23 ploidy m j = 0 ↔ ∀ r ∈ m, entry r j = 0) := by
+  have h2 := BinaryFloat.roundBin_contract 23
+  rw [BinaryFloat.epsT_23] at h2
+  obtain ⟨f1, f2, _, _⟩ := BinaryFloat.binary64_fixes_narrow_grid
+  exact afreq_cast_exact_partial Binary64.roundBinary64_contract h2 f1 f2 hv (eps32_bound _ hbig) j
+
+/-- … and for `dtype = float16`, for at most 2¹¹ chromosome copies -/
+theorem afreq_float16_exact_partial {ploidy nv : Nat} {m : UMat} (hv : ValidU ploidy nv m)
+    (hbig : ploidy * m.length ≤ 2 ^ 11) (j : Nat) :
+    (0 ≤ afreqNarrowAt 10 ploidy m j ∧ afreqNarrowAt 10 ploidy m j ≤ 1)
+    ∧ (afreqNarrowAt 10 ploidy m j = 1 ↔ ∀ r ∈ m, entry r j = (ploidy : Int))
+    ∧ (afreqNarrowAt 10 ploidy m j = 0 ↔ ∀ r ∈ m, entry r j = 0) := by
+  have h2 := BinaryFloat.roundBin_contract 10
+  rw [BinaryFloat.epsT_10] at h2
+  obtain ⟨_, _, f1, f2⟩ := BinaryFloat.binary64_fixes_narrow_grid
+  exact afreq_cast_exact_partial Binary64.roundBinary64_contract h2 f1 f2 hv (eps16_bound _ hbig) j
+
+/-- the size bounds are those of the formats, not of the proof: one copy of allele 0 among 2·2049 = 4098 is invisible
+    in binary16, one among 2²⁵ + 2 in binary32 (kernel-evaluated on the rational rounding models; the first is what
+    `DensePhasedGenotypeMatrix(2 × 2049 × 1).afreq("float16")` returns on the real code) -/
+theorem narrow_float_size_bound_counterexample :
+    BinaryFloat.castF16 (Binary64.roundBinary64 ((4097 : Rat) / 4098)) = 1
+    ∧ BinaryFloat.castF16 (Binary64.roundBinary64 ((2047 : Rat) / 2048)) < 1
+    ∧ BinaryFloat.castF32 (Binary64.roundBinary64 ((33554433 : Rat) / 33554434)) = 1
+    ∧ BinaryFloat.castF32 (Binary64.roundBinary64 ((16777215 : Rat) / 16777216)) < 1 := by decide +kernel
+
+/-! ### integer dtypes: `afreq("int64")`, `tafreq(int)`, … cast the binary64 value, i.e. truncate toward zero -/
+
+/-- **A frequency requested in an integer dtype** is 1 exactly when every copy carries allele 1 and 0 otherwise — for
+    every rounding that meets the contract (`ploidy·ntaxa·e ≤ 1`): the `= 1` half of the boundary clause survives the
+    cast, and nothing else can (see the counterexample below). -/
+theorem afreq_int_cast_exact_partial (h : RoundingContract rnd e) {ploidy nv : Nat} {m : UMat}
+    (hv : ValidU ploidy nv m) (hbig : ((ploidy * m.length : ℕ) : ℚ) * e ≤ 1) (j : Nat) :
+    (truncRat (rnd (afreqAt (α := ℚ) ploidy m j)) = 1 ↔ ∀ r ∈ m, entry r j = (ploidy : Int))
+    ∧ (truncRat (rnd (afreqAt (α := ℚ) ploidy m j)) = 0 ↔ ¬ ∀ r ∈ m, entry r j = (ploidy : Int)) :=
+  afreqAt_int_cast h hv hbig j
+
+/-- the same for the value the driver predicts bit for bit: `afreqIntAt` = truncation of the IEEE binary64 quotient -/
+theorem afreq_int64_exact_partial {ploidy nv : Nat} {m : UMat} (hv : ValidU ploidy nv m)
+    (hbig : ploidy * m.length ≤ 2 ^ 53) (j : Nat) :
+    (afreqIntAt ploidy m j = 1 ↔ ∀ r ∈ m, entry r j = (ploidy : Int))
+    ∧ (afreqIntAt ploidy m j = 0 ↔ ¬ ∀ r ∈ m, entry r j = (ploidy : Int)) :=
+  afreqAt_int_cast Binary64.roundBinary64_contract hv (eps64_bound _ hbig) j
+
+/-- truncation is what the cast does: toward zero, by less than one, exact on integers -/
+theorem int_cast_is_truncation (q : ℚ) (n : ℤ) :
+    truncRat (n : ℚ) = n
+    ∧ (0 ≤ q → 0 ≤ truncRat q ∧ (truncRat q : ℚ) ≤ q ∧ q < truncRat q + 1)
+    ∧ (q < 0 → truncRat q ≤ 0 ∧ q ≤ (truncRat q : ℚ) ∧ (truncRat q : ℚ) - 1 < q) :=
+  ⟨truncRat_int n, (truncRat_toward_zero q).1, (truncRat_toward_zero q).2⟩
+
+/-
+FULL STATEMENT (false in every integer dtype, see `afreq_int_cast_zero_half_counterexample`):
+  "for every requested output dtype the returned frequency is exactly 0 precisely when no copy carries allele 1".
+An integer cannot hold a value strictly between 0 and 1: a heterozygous individual has frequency 1/2 and
+`afreq("int64")` returns 0 although a copy carries allele 1 — and so would any implementation returning that dtype.
+-/
+theorem afreq_int_cast_zero_half_counterexample :
+    afreqIntAt 2 [[1]] 0 = 0 ∧ ¬ (∀ r ∈ ([[1]] : UMat), entry r 0 = 0)
+    ∧ afreqIntAt 2 [[2]] 0 = 1 ∧ mafIntOf (afreqIntAt 2 [[2]] 0) = 0 ∧ tafreqIntAt 4 3 = 0 ∧ tafreqIntAt 4 4 = 1 := by
+  decide +kernel
+
+/-- the size hypothesis of `afreq_ieee_exact_partial` / `afreq_int64_exact_partial` is needed for the IEEE rounding
+    itself (not only for the artificial `snapUp`): with 2⁵⁴ chromosome copies, one of them allele 0, the binary64
+    quotient is exactly 1 (kernel-evaluated on the rational rounding model) -/
+theorem ieee_size_bound_counterexample :
+    Binary64.roundBinary64 (((2 ^ 54 - 1 : Nat) : Rat) / ((2 ^ 54 : Nat) : Rat)) = 1
+    ∧ Binary64.roundBinary64 (((2 ^ 53 - 1 : Nat) : Rat) / ((2 ^ 53 : Nat) : Rat)) < 1 := by decide +kernel
+
 end rounding
+
+/-! ## 4. One object, many queries: what a memo needs (Model/GenotypeCache) -/
+section memo
+open GenotypeCache
+
+/-- **Memo soundness.**  If EVERY write — element assignment on the stored array, re-assignment through the `mat`
+    setter, in-place culling — drops the memo, then along every history of writes and queries on one object, of any
+    length, every `afreq()` answers what the stateless statistic gives for the data the object holds at that moment
+    (so every theorem of sections 1-3 applies to the answer). -/
+theorem memo_sound_when_every_write_invalidates {α : Type} [Div α] [NatCast α] [IntCast α]
+    (ploidy nv : Nat) (m : UMat) (ops : List Op) :
+    ∀ x ∈ run (α := α) full (fresh ploidy nv m) ops, x.1 = x.2 :=
+  run_full_sound ops _ (Or.inl rfl)
+
+/-- **Each omission is a defect**: a discipline that forgets one kind of write returns a stale frequency on a
+    three-step history (query, that write, query).  Setter-only invalidation — the natural place to put it — is
+    stale after an in-place edit of the same array and after `remove_taxa` (which assigns `_mat` directly). -/
+theorem memo_stale_counterexample :
+    run (α := Rat) ⟨false, true, true⟩ (fresh 2 1 [[2], [0]]) [.query, .edit 1 0 2, .query] = [([1/2], [1/2]), ([1/2], [1])]
+    ∧ run (α := Rat) ⟨true, false, true⟩ (fresh 2 1 [[2], [0]]) [.query, .setMat [[2], [2]], .query] = [([1/2], [1/2]), ([1/2], [1])]
+    ∧ run (α := Rat) ⟨true, true, false⟩ (fresh 2 1 [[2], [0]]) [.query, .remove [1], .query] = [([1/2], [1/2]), ([1/2], [1])]
+    ∧ run (α := Rat) full (fresh 2 1 [[2], [0]]) [.query, .edit 1 0 2, .query, .remove [1], .query]
+        = [([1/2], [1/2]), ([1], [1]), ([1], [1])] := by decide +kernel
+
+end memo
+
+/-! ## 5. The Spec oracle the driver evaluates on the implementation's outputs (Model/GenotypeSpec.lean) -/
+section spec
+open GenotypeSpec
+
+/-- **spec_sound (unphased).**  What the model computes for a valid dosage matrix passes EVERY clause of the Spec —
+    the 18 clauses written from the textbook definitions on the raw calls that the driver evaluates on the
+    implementation's outputs in every case — for every ploidy, size and tolerance ≥ 0.  So a Spec failure on the real
+    code is never an artefact of the oracle disagreeing with the model. -/
+theorem spec_sound_unphased {ploidy nv : Nat} {m : UMat} (hv : ValidU ploidy nv m) (t : Tol) (ht : 0 ≤ t.maf) :
+    specOne (rawOfU ploidy nv m) t {} (modelU ploidy nv m) = [] :=
+  specOne_modelU hv (agrees_rawOfU ploidy nv m) t ht
+
+/-- the 13 outputs of the phased model ARE those of the unphased model on the projection (record form of
+    `phased_eq_projection`) -/
+theorem modelP_eq_modelU_project {nt nv : Nat} {G : PMat} (hv : ValidP nt nv G) :
+    modelP nt nv G = modelU (project nt nv G).1 nv (project nt nv G).2 := by
+  obtain ⟨h1, h2, h3, h4, h5, h6, h7, h8, h9, h10, h11, h12, h13⟩ := phased_eq_projection (α := ℚ) hv
+  unfold modelP modelU
+  rw [h1, h2, h3, h4, h5, h6, h7, h8, h9, h10, h11, h12, h13]
+
+/-- **spec_sound (phased and projection).**  For a valid phased matrix (any number of phases) the model's answers for
+    the phased object AND for its unphased projection pass every clause of the Spec evaluated on the raw phased calls
+    (copies counted per taxon and locus), and the two sets of answers pass the "identical answers" clauses. -/
+theorem spec_sound_phased {nt nv : Nat} {G : PMat} (hv : ValidP nt nv G) (t : Tol) (ht : 0 ≤ t.maf) :
+    specOne (rawOfP nt nv G) t {} (modelP nt nv G) = []
+    ∧ specOne (rawOfP nt nv G) t {} (modelU (project nt nv G).1 nv (project nt nv G).2) = []
+    ∧ specSame t (modelP nt nv G) (modelU (project nt nv G).1 nv (project nt nv G).2) = [] := by
+  have hU := specOne_modelU (psum_valid hv) (agrees_rawOfP hv) t ht
+  rw [modelP_eq_modelU_project hv]
+  exact ⟨hU, hU, specSame_self t _⟩
+
+/-- **spec_iff (the boundary clauses).**  The two Bool clauses say exactly what the property states: the output has one
+    entry per locus, entry `j` is 1 iff every copy of the population carries allele 1 at locus `j`, and 0 iff none
+    does (raw calls of an unphased matrix). -/
+theorem spec_iff_boundary {ploidy nv : Nat} {m : UMat} (o : Outs) :
+    (clOne (rawOfU ploidy nv m) o = true ↔ o.afreq.length = nv ∧ ∀ j, j < nv → ∀ x, o.afreq[j]? = some x →
+        (x = 1 ↔ ∀ r ∈ m, entry r j = (ploidy : Int)))
+    ∧ (clZero (rawOfU ploidy nv m) {} o = true ↔ o.afreq.length = nv ∧ ∀ j, j < nv → ∀ x, o.afreq[j]? = some x →
+        (x = 0 ↔ ∀ r ∈ m, entry r j = 0)) := by
+  have ha := agrees_rawOfU ploidy nv m
+  have e : (rawOfU ploidy nv m).nv = nv := rfl
+  constructor
+  · unfold clOne
+    rw [e, vecIs_iff]
+    refine and_congr_right (fun _ => forall_congr' (fun j => forall_congr' (fun hj => forall_congr' (fun x =>
+      forall_congr' (fun _ => ?_)))))
+    rw [bool_beq_iff, allOne_iff ha j hj, beq_iff_eq]
+  · unfold clZero
+    simp only [Bool.false_or]
+    rw [e, vecIs_iff]
+    refine and_congr_right (fun _ => forall_congr' (fun j => forall_congr' (fun hj => forall_congr' (fun x =>
+      forall_congr' (fun _ => ?_)))))
+    rw [bool_beq_iff, allZero_iff ha j hj, beq_iff_eq]
+
+end spec
 
 /-! ## non-vacuity: concrete non-trivial inputs satisfy the hypotheses (kernel-evaluated) -/
 
@@ -516,6 +712,16 @@ example : afixed (α := Rat) 2 3 [[2, 0, 1], [2, 0, 2], [2, 0, 0]] = [true, true
 example : gtcount 2 3 [[2, 0, 1], [2, 0, 2], [2, 0, 0]] = [[0, 3, 1], [0, 0, 1], [3, 0, 1]] := by decide
 example : project 2 3 [[[1, 0, 1], [1, 0, 0]], [[1, 0, 0], [1, 0, 1]]] = (2, [[2, 0, 1], [2, 0, 1]]) := by decide
 example : papoly 3 [[[1, 0, 1], [1, 0, 0]], [[1, 0, 0], [1, 0, 1]]] = [false, false, true] := by decide
+example : m1Loop (α := Rat) 2 [[2, 1], [1, 1], [0, 2]] = [[1, 1 / 3], [0, 1 / 3], [-1, 1]] := by decide +kernel
+/-- the Spec accepts the model's answers on a concrete matrix and rejects an answer with one frequency off -/
+example : GenotypeSpec.specOne (GenotypeSpec.rawOfU 2 3 [[2, 0, 1], [2, 0, 2], [2, 0, 0]])
+    ⟨0, 0, 0, 0, 0, 0⟩ {} (GenotypeSpec.modelU 2 3 [[2, 0, 1], [2, 0, 2], [2, 0, 0]]) = [] := by decide +kernel
+example : GenotypeSpec.specOne (GenotypeSpec.rawOfU 2 3 [[2, 0, 1], [2, 0, 2], [2, 0, 0]])
+    ⟨0, 0, 0, 0, 0, 0⟩ {} { GenotypeSpec.modelU 2 3 [[2, 0, 1], [2, 0, 2], [2, 0, 0]] with afreq := [1, 0, 1 / 3] }
+    = ["afreq=definition"] := by decide +kernel
+/-- a memoised object answers like the stateless class when every write drops the memo (a five-step history) -/
+example : (GenotypeCache.run (α := Rat) GenotypeCache.full (GenotypeCache.fresh 2 1 [[2], [0]])
+    [.query, .edit 1 0 2, .query, .setMat [[0], [1]], .query]).map Prod.fst = [[1 / 2], [1], [1 / 4]] := by decide +kernel
 /-- the rounding contract is inhabited (exact arithmetic), and 98 copies are within the binary64 range -/
 example : RoundingContract id eps64 := contract_id _ (by unfold eps64; positivity)
 example : ((2 * 49 : ℕ) : ℚ) * eps64 ≤ 1 := eps64_bound _ (by norm_num)
